@@ -381,5 +381,68 @@ def r19_7(ctx):
     return r
 
 
+def r19_8(ctx):
+    """'each source stream maps to one stable output SSRC and payload type per rule': which rule applies to a packet is
+    decided by rule_for - an exact payload-type rule wins, the catch-all (no payload type) applies only when no exact
+    rule exists, WHATEVER the order of the table (callers supply their own tables). A single scan that takes the first
+    or last rule that 'accepts' the packet lets a catch-all listed on the wrong side shadow every specific rule: DTMF and
+    video leave with the audio rule's SSRC and payload type. Decided: rule_for contains a search whose predicate accepts
+    only rules with match_payload_type == Some(pt), and every predicate that accepts a rule without a payload type is
+    used only in the fallback taken when that first search found nothing."""
+    r = RuleResult("R19.8", "K6", "bridge rule selection: exact payload-type rule first, catch-all only as the fallback")
+    fn = "transports::rtp::RewriteBridge::rule_for"
+    b = ctx.body(fn)
+    r.scope.append(fn)
+    fam = [nb for nb in ctx.facts.all_bodies() if nb.name == fn or nb.name.startswith(fn + "::{closure")]
+
+    def kind(cb):
+        # what a predicate closure accepts
+        exact = catch = False
+        for ci, ct, cp in cb.calls():
+            t = cb.term_call(ct)
+            if cp and "PartialEq" in cp and mir.has_field(t, "match_payload_type") and mir.has(t, lambda x: x[0] == "agg" and x[2] == "Some"):
+                exact = True
+            if cp and cp.split("::")[-1] in ("is_none", "is_none_or", "map_or", "is_some_and", "unwrap_or", "map_or_else") and mir.has_field(t, "match_payload_type"):
+                catch = True
+        for sb in range(len(cb.blocks)):
+            if cb.blocks[sb]["t"]["k"] == "switch" and mir.has_field(cb.switch_info(sb)[0], "match_payload_type"):
+                catch = True            # a match on the Option: may accept None
+        return exact, catch
+    searches = []
+    for nb in fam:
+        for ci, ct, cp in nb.calls():
+            if cp and cp.split("::")[-1] in ("find", "rfind", "position", "rposition", "find_map", "filter"):
+                for a in ct["a"]:
+                    ta = nb.term_operand(a)
+                    if ta[0] == "closure" and ctx.facts.has_body(ta[1]):
+                        searches.append((nb, ci, kind(ctx.facts.body(ta[1]))))
+    r.need("rule searches in rule_for", len(searches), 1)
+    exact_only = [(nb, ci) for nb, ci, (e, c) in searches if e and not c]
+    catching = [(nb, ci) for nb, ci, (e, c) in searches if c]
+    if not exact_only:
+        r.violate(fn, "rule:no-exact-first", b.where(0),
+                  "rule_for has no search that accepts exact payload-type rules only: a catch-all rule can be picked although a rule for this "
+                  "payload type exists (depending on the order of the table)")
+    else:
+        r.ok({"site": exact_only[0][0].where(exact_only[0][1]), "first": "exact payload-type match"})
+    for nb, ci in catching:
+        # must live in the fallback: inside a closure handed to or_else / unwrap_or_else, or behind the None edge of the exact search
+        in_fallback = nb.name != fn and any(cp and cp.split("::")[-1] in ("or_else", "unwrap_or_else", "or_insert_with") and
+                                             any(b.term_operand(a)[0] == "closure" and nb.name.startswith(b.term_operand(a)[1]) for a in ct["a"])
+                                             for _ci, ct, cp in b.calls())
+        if not in_fallback and nb.name == fn and exact_only:
+            def none_edge(term, meaning, *_):
+                return term[0] == "discr" and meaning == "None" and mir.has(term[1], lambda x: x[0] == "call" and x[1].split("::")[-1] in ("find", "rfind"))
+            g = core.guard_edges(b, none_edge)
+            in_fallback = bool(g) and core.k1(b, [ci], g)[ci] is None
+        if in_fallback:
+            r.ok({"site": nb.where(ci), "catch-all": "only in the fallback of the exact search"})
+        else:
+            r.violate(fn, "rule:catch-all-not-fallback", nb.where(ci),
+                      "a search that accepts the catch-all rule is not confined to the fallback of the exact-match search: it shadows specific rules "
+                      "listed on the other side of it")
+    return r
+
+
 def run(ctx):
-    return [r19_1(ctx), r19_2(ctx), r19_3(ctx), r19_4(ctx), r19_5(ctx), r19_6(ctx), r19_7(ctx)]
+    return [r19_1(ctx), r19_2(ctx), r19_3(ctx), r19_4(ctx), r19_5(ctx), r19_6(ctx), r19_7(ctx), r19_8(ctx)]
